@@ -183,19 +183,6 @@ theorem search_layout_independent (S : ValSem) (hS : SubSem S) (w : World)
 
 /-! ## 4. a sound index exists for every database and layout (non-vacuity of `IdxSound`) -/
 
-/-- the index a reindex builds for layout `cfg` (which (attribute, index type) tables exist) -/
-def idxOf (w : World) (cfg : Nat → IType → Bool) : Idx := fun a t k =>
-  if cfg a t then
-    some (match t with
-      | .equality => w.live.filter (fun id => (w.ent id a).contains k)
-      | .presence => if k = presKey then w.live.filter (fun id => !(w.ent id a).isEmpty) else []
-      | .substring =>
-        match k with
-        | .str s => w.live.filter (fun id => (w.ent id a).any (fun x => (subKeysOf x).contains s))
-        | .num _ => []
-      | .ordering => [])
-  else none
-
 theorem idxOf_sound (w : World) (cfg : Nat → IType → Bool) : IdxSound w (idxOf w cfg) where
   eq := by
     intro a v s h id
